@@ -506,3 +506,67 @@ func checkValidationExact(c *engine.Ctx, rule string) {
 	}
 	c.Floor(n, 10)
 }
+
+// fnReachesFn: does `from` reach `to` through static calls inside its package (helpers split out of it; bounded depth)?
+func fnReachesFn(from, to *ssa.Function) bool {
+	seen := map[*ssa.Function]bool{}
+	var walk func(g *ssa.Function, d int) bool
+	walk = func(g *ssa.Function, d int) bool {
+		if g == to {
+			return true
+		}
+		if d > 4 || seen[g] || g == nil || g.Blocks == nil {
+			return false
+		}
+		seen[g] = true
+		hit := false
+		engine.ForEachInstr(g, func(in ssa.Instruction) {
+			if hit {
+				return
+			}
+			switch x := in.(type) {
+			case ssa.CallInstruction:
+				if cf := engine.CalleeFn(x); cf != nil && cf.Pkg == from.Pkg && walk(cf, d+1) {
+					hit = true
+				}
+			case *ssa.MakeClosure:
+				if cf, ok := x.Fn.(*ssa.Function); ok && walk(cf, d+1) {
+					hit = true
+				}
+			}
+		})
+		return hit
+	}
+	return walk(from, 0)
+}
+
+// argsOfType: the values a call passes that satisfy pred on their type — positional arguments, and the values stored into
+// matching fields of a parameter-carrying struct built by the caller (passed by pointer or by value). A constructor whose
+// long parameter list was grouped into a context struct is seen the same way as before.
+func argsOfType(call ssa.CallInstruction, pred func(types.Type) bool) []ssa.Value {
+	var out []ssa.Value
+	for _, a := range engine.CallArgs(call) {
+		if pred(a.Type()) {
+			out = append(out, a)
+			continue
+		}
+		v := engine.Unwrap(a)
+		if u, ok := v.(*ssa.UnOp); ok && u.Op == token.MUL {
+			v = u.X
+		}
+		al, ok := v.(*ssa.Alloc)
+		if !ok {
+			continue
+		}
+		st, ok := engine.Deref(al.Type()).Underlying().(*types.Struct)
+		if !ok {
+			continue
+		}
+		for i := 0; i < st.NumFields(); i++ {
+			if pred(st.Field(i).Type()) {
+				out = append(out, nameStores(al, st.Field(i))...)
+			}
+		}
+	}
+	return out
+}
